@@ -952,6 +952,13 @@ def decoder_window(ctx, chk, prog, facts):
                    for k, t, v in env.log)
         if same:
             continue            # index == ip: covered by (a)
+        from .. import bvproof as _bp
+        if T.is_int(idx) and _bp.equal_under(idx, ipv, env, 64) is True:
+            continue            # index == ip follows from the path condition (e.g. `index > ip` is false): covered by (a)
+        # the sub-case index == ip of this call is (a)'s; what remains is index != ip
+        env = env.copy()
+        if T.is_int(idx) and not env.assume_eq(O(1, 'ne', idx, ipv), 1):
+            continue
         sig = (idx, tuple(env.log))
         if sig in seen:
             continue
